@@ -68,3 +68,13 @@ package verifspec
 //@   hint return: unfold elen(slice.$array[slice.$offset:], 0)
 //@   ensures len(result) == elen(slice.$array[slice.$offset:], slice.$length)
 //@   ensures forall(k, 0, slice.$length, decR(result, elen(slice.$array[slice.$offset:], k)) == enc1(slice.$array[slice.$offset + k]))
+
+// $bytesToString (string(bytes)): exactly the bytes of the slice, chunked through String.fromCharCode.apply.
+//@ js prelude.js $bytesToString
+//@ property C14
+//@   param slice: slice
+//@   returns str
+//@   loop 1 invariant 0 <= i && i <= slice.$length + 9999 && i % 10000 == 0 && len(str) == min(i, slice.$length)
+//@   loop 1 invariant forall(k, 0, len(str), str[k] == slice.$array[slice.$offset + k])
+//@   ensures len(result) == slice.$length
+//@   ensures forall(k, 0, slice.$length, result[k] == slice.$array[slice.$offset + k])
